@@ -252,3 +252,23 @@ package journal
 //@ func CompareDays
 //@   requires d != nil && d2 != nil
 //@   ensures [C06] [C05] @lex: result == (d.Date < d2.Date ? 0 - 1 : (d.Date == d2.Date ? 0 : 1))
+//
+// The journal-level pipeline (cpr.Seq: one goroutine per processor stage) and the concurrent loader are
+// outside the verified subset. They are trusted to hand over a well-formed builder / journal; the
+// per-day processors themselves are verified above.
+//@ func FromPath
+//@   trusted
+//@   modifies nothing
+//@   ensures result.1 == nil ==> wfBuilder(result.0)
+//
+//@ func (*Builder).Build
+//@   trusted
+//@   requires wfBuilder(j)
+//@   modifies nothing
+//@   ensures result != nil && fresh(result) && transcodable(result)
+//
+//@ func (*Journal).Process
+//@   trusted
+//@   requires j != nil
+//@   modifies *
+//@   ensures result == nil ==> transcodable(j)
